@@ -120,6 +120,7 @@ func RunModelT(bin string, sc *Scenario, impl *ImplRun, checkSizes bool, transcr
 		return "999999"
 	}
 	removedRealm := map[int]bool{}
+	var clock int64 // virtual time so far (sum of the tick ops)
 	incarnation := map[int]int{} // a realm that is removed and added again starts its id counters anew
 	realmOf := func(recv int) int {
 		if r, ok := joined[recv]; ok {
@@ -147,6 +148,10 @@ func RunModelT(bin string, sc *Scenario, impl *ImplRun, checkSizes bool, transcr
 		}
 		if op.Kind == "join" && r.Failed == "" {
 			joined[op.Sess] = op.Realm
+		}
+		created := op.Kind == "addrealm" && r.Failed == "" && removedRealm[op.Realm]
+		if op.Kind == "tick" {
+			clock += op.Ms
 		}
 		if op.Kind == "addrealm" && r.Failed == "" && removedRealm[op.Realm] {
 			incarnation[op.Realm]++
@@ -207,6 +212,13 @@ func RunModelT(bin string, sc *Scenario, impl *ImplRun, checkSizes bool, transcr
 		}
 		if _, _, err := p.Send(doLine); err != nil {
 			return mr, &Mismatch{OpIndex: i, What: "model-error", Detail: err.Error()}, nil
+		}
+		if created && clock > 0 {
+			// the model has no router-level clock: a realm created now starts
+			// at the router's current virtual time
+			if _, _, err := p.Send(fmt.Sprintf("rtick %d %d", op.Realm, clock)); err != nil {
+				return mr, &Mismatch{OpIndex: i, What: "model-error", Detail: err.Error()}, nil
+			}
 		}
 		*namer = *nm
 		mr.Canon = append(mr.Canon, canon)
